@@ -182,6 +182,44 @@ package table
 //@   loop 6 invariant forall k int, j int :: {t.rows[k].cells[j]} 0 <= k && k < len(t.rows) && 0 <= j && j < len(t.columns) ==> widths[j] >= minLen(r, t.rows[k].cells[j])
 //@   loop 6 invariant outok() ==> outlen() - ls[$i5] == ($i == 0 ? 2 : ($i < len(t.columns) ? end[$i - 1] : end[len(t.columns) - 1] - 3))
 //
+// CSV (property C17: "the CSV rendering carries the exact unrounded amounts in the same row and column
+// positions"): every row of the table that has a cell with text - a non-empty text cell or ANY number cell -
+// is written as one record, in row order, with one field per cell (at the moment of the Write call the record
+// holds, in column order, the cell texts - the exact decimal string for a number: loop 2's invariant; that
+// written records keep their contents afterwards is not stated: it would need a snapshot of the string heap);
+// rows without any text (separator and spacer rows) are skipped, and nothing else is written.
+// Ghosts: wrote[k] = index (among the Write events of this call) of the record of row k, rowOf its inverse.
+//@ def csvText(c cell) string := typeIs(c, "textCell") ? dyn(c, "textCell").Content : (typeIs(c, "numberCell") ? dstring(dyn(c, "numberCell").n) : "")
+//@ def csvCell(c cell) bool := typeIs(c, "emptyCell") || typeIs(c, "SeparatorCell") || typeIs(c, "textCell") || typeIs(c, "numberCell")
+//@ def csvRowText(row *Row) bool := exists j int :: 0 <= j && j < len(row.cells) && len(csvText(row.cells[j])) > 0
+//@ def csvRecord(rec []string, row *Row) bool := len(rec) == len(row.cells) && (forall j int :: {rec[j]} 0 <= j && j < len(rec) ==> rec[j] == csvText(row.cells[j]))
+//@ func (*CSVRenderer).Render
+//@   requires t != nil && (forall k int :: {t.rows[k]} 0 <= k && k < len(t.rows) ==> t.rows[k] != nil && (forall j int :: {t.rows[k].cells[j]} 0 <= j && j < len(t.rows[k].cells) ==> csvCell(t.rows[k].cells[j])))
+//@   modifies nothing
+//@   callback Write=0
+//@   ghost wrote []int = 0
+//@   ghost n int = 0
+//@   ghost rowOf []int = 0
+//@   ensures [C17] @count: result == nil ==> tlen() == old(tlen()) + n && n <= len(t.rows)
+//@   ensures [C17] @rows: result == nil ==> (forall k int :: {t.rows[k]} 0 <= k && k < len(t.rows) && csvRowText(t.rows[k]) ==> 0 <= wrote[k] && wrote[k] < n)
+//@   ensures [C17] @fields: result == nil ==> (forall k int :: {wrote[k]} 0 <= k && k < len(t.rows) && 0 <= wrote[k] ==> rowOf[wrote[k]] == k)
+//@        && (forall e int :: {targ("Write", 0, e)} old(tlen()) <= e && e < tlen() ==> 0 <= rowOf[e - old(tlen())] && rowOf[e - old(tlen())] < len(t.rows) && len(targ("Write", 0, e)) == len(t.rows[rowOf[e - old(tlen())]].cells))
+//@   ensures [C17] @order: result == nil ==> (forall a int, b int :: {wrote[a], wrote[b]} 0 <= a && a < b && b < len(t.rows) && 0 <= wrote[a] && 0 <= wrote[b] ==> wrote[a] < wrote[b])
+//@   loop 1 ghost-end wrote := upd(wrote, $i - 1, hasText ? n : 0 - 1)
+//@   loop 1 ghost-end rowOf := hasText ? upd(rowOf, n, $i - 1) : rowOf
+//@   loop 1 ghost-end n := hasText ? n + 1 : n
+//@   loop 1 invariant 0 <= $i && $i <= len($range) && $range == t.rows && tlen() == old(tlen()) + n && 0 <= n && n <= $i
+//@   loop 1 invariant forall k int :: {t.rows[k]} 0 <= k && k < $i && csvRowText(t.rows[k]) ==> 0 <= wrote[k]
+//@   loop 1 invariant forall k int :: {wrote[k]} 0 <= k && k < $i && 0 <= wrote[k] ==> wrote[k] < n && len(targ("Write", 0, old(tlen()) + wrote[k])) == len(t.rows[k].cells)
+//@   loop 1 invariant forall k int :: {wrote[k]} 0 <= k && k < $i && 0 <= wrote[k] ==> rowOf[wrote[k]] == k
+//@   loop 1 invariant forall e int :: {targ("Write", 0, e)} old(tlen()) <= e && e < tlen() ==> 0 <= rowOf[e - old(tlen())] && rowOf[e - old(tlen())] < $i && len(targ("Write", 0, e)) == len(t.rows[rowOf[e - old(tlen())]].cells)
+//@   loop 1 invariant forall a int, b int :: {wrote[a], wrote[b]} 0 <= a && a < b && b < $i && 0 <= wrote[a] && 0 <= wrote[b] ==> wrote[a] < wrote[b]
+//@   loop 1 invariant forall e int :: {targ("Write", 0, e)} old(tlen()) <= e && e < tlen() ==> live(targ("Write", 0, e))
+//@   loop 2 invariant 0 <= $i && $i <= len($range) && $range == row.cells && len(rec) == $i && fresh(rec) && tlen() == entry(tlen())
+//@   loop 2 invariant forall j int :: {rec[j]} 0 <= j && j < $i ==> rec[j] == csvText(row.cells[j])
+//@   loop 3 invariant 0 <= $i && $i <= len($range) && $range == rec && tlen() == entry(tlen()) && !hasText
+//@   loop 3 invariant forall j int :: {rec[j]} 0 <= j && j < $i ==> len(rec[j]) == 0
+//
 // CSV: the cell text of a number is its exact decimal string; text cells are copied.
 //@ func (*CSVRenderer).renderCell
 //@   ensures isCell(c) ==> result.1 == nil
